@@ -180,8 +180,15 @@ def scenarios_c10(rng, n, maximgs, thorough):
         freed = [k for k in range(1, 7) if rng.random() < 0.4]
         lim = rng.choice([30, 30, 70, 200, 1 << 30])
         cfg = {"primary": "mh", "bits": rng.choice([8, 9, 12]), "il": rng.choice([30, 70, 200, 1 << 30]), "pl": lim, "imm": False, "keys": keys, "vals": seqeng.VALS}
+        # (an open interrupted by cancellation is generated only for legacy stores that lost nothing: with lost records it
+        #  is another way into the known finding KF-C10-interrupted-cleanup-of-unusable-entries, whose trigger is computed
+        #  for crash points)
         out.append({"cfg": cfg, "ops": [], "maxImgs": maximgs, "cont": CONT, "mode": "upgrade", "seed": vlib.seed() * 1000 + i, "onlyOps": [-1], "allTorn": thorough,
-                    "legacy": {"vals": vals, "freed": freed, "pending": rng.random() < 0.6, "bits": cfg["bits"], "lost": rng.choice([0, 0, 1, 2, 3]), "torn": rng.choice([0, 0, 2, 6, 20])}})
+                    "legacy": {"vals": vals, "freed": freed, "pending": rng.random() < 0.6, "bits": cfg["bits"], "lost": rng.choice([0, 0, 1, 2, 3]), "torn": rng.choice([0, 0, 2, 6, 20]),
+                               "ctxN": rng.choice([0, 0, 0] + list(range(1, 15)))}})
+    for sc in out:
+        if sc["legacy"]["lost"] > 0:
+            sc["legacy"]["ctxN"] = 0
     return out
 
 
